@@ -35,10 +35,13 @@ End Partials.
 (* The same loop over an engine WITH STATE that survives between calls (compiled
    template set / templatesLoaded, whatever an earlier Render or RenderPartials
    call left behind, the data object a partial was handed): [renderS] takes the
-   state before the call and returns the state after it with the result. *)
+   state before the call and returns the state after it with the result; [loadS]
+   is an explicit (re)load of templates, LoadTemplates(filter), which returns no
+   content but may change the state. *)
 Section PartialsState.
   Variable St : Type.
   Variable renderS : St -> bytes -> St * option bytes.
+  Variable loadS : St -> bytes -> St.
 
   Fixpoint rp_loopS (s : St) (t : bytes) (ps : list bytes) (acc : list (bytes * bytes))
     : St * option (list (bytes * bytes)) :=
@@ -56,12 +59,14 @@ Section PartialsState.
   (* earlier calls on the same engine *)
   Inductive call :=
   | CRender (name : bytes)
-  | CPartials (t : bytes) (ps : list bytes).
+  | CPartials (t : bytes) (ps : list bytes)
+  | CLoad (filter : bytes).   (* LoadTemplates(filter), also what the DebugController does for ?tpl=filter *)
 
   Definition do_call (s : St) (c : call) : St :=
     match c with
     | CRender n => fst (renderS s n)
     | CPartials t ps => fst (render_partialsS s t ps)
+    | CLoad f => loadS s f
     end.
 
   Definition after (s : St) (h : list call) : St := fold_left do_call h s.
@@ -84,6 +89,72 @@ Section Lookup.
   Definition render_lookup (n : bytes) : option bytes :=
     if mem n tree then exec n else None.
 End Lookup.
+
+(* The engine's template set as state.  pugjs/engine.go:
+
+     loadTemplates(filter):  if !CAS(&templatesLoaded, 0, 1) && filter == "" { return error }
+                             templates := compileDir(.., filter)        -- every file whose name has the PREFIX filter
+                             if filter != "" && e.templates != nil {
+                                 for name, tpl := range e.templates { if !HasPrefix(name, filter) { templates[name] = tpl } } }
+                             e.templates = templates
+     Render(name):           if templatesLoaded == 0 && !Debug { loadTemplatesOnce() }   -- loads everything
+                             else if Debug { LoadTemplates(name) }                       -- error => Render fails
+                             tpl, ok := e.templates[name]; !ok => "not found"
+
+   State [None] = an engine that never loaded (templatesLoaded = 0); [Some l] = the names of
+   the compiled templates.  The files do not change and every file compiles.  [sel f n] tells
+   which files a load with filter f compiles ([prefixb] in the code; [beqb] only in the
+   counter-model [load_exact]); what a filtered load keeps of the old set is always decided
+   by the prefix. *)
+Definition tset := option (list bytes).
+
+Section Engine.
+  Variable tree : list bytes.
+  Variable exec : bytes -> option bytes.
+  Variable debug : bool.
+
+  Definition load_gen (sel : bytes -> bytes -> bool) (s : tset) (f : bytes) : tset :=
+    match f, s with
+    | [], None => Some tree
+    | [], Some l => Some l                          (* "Can not preload all templates again": nothing changes *)
+    | _, None => Some (filter (sel f) tree)         (* marks the engine as loaded! *)
+    | _, Some l => Some (filter (sel f) tree ++ filter (fun n => negb (prefixb f n)) l)
+    end.
+
+  Definition load := load_gen prefixb.
+  Definition load_exact := load_gen beqb.
+
+  Definition found (s : tset) (n : bytes) : option bytes :=
+    match s with
+    | Some l => if mem n l then exec n else None
+    | None => None
+    end.
+
+  Definition render_eng (s : tset) (n : bytes) : tset * option bytes :=
+    if debug then
+      match n, s with
+      | [], Some _ => (s, None)
+      | _, _ => let s' := load s n in (s', found s' n)
+      end
+    else
+      let s' := match s with None => Some tree | Some _ => s end in (s', found s' n).
+End Engine.
+
+(* an engine state that holds exactly the files of the tree *)
+Definition complete (tree : list bytes) (s : tset) : Prop :=
+  exists l, s = Some l /\ forall n, In n l <-> In n tree.
+
+(* histories of a production-mode engine that never loaded (state None) after which it holds
+   all templates: the first call that touches the template set is not a filtered load *)
+Fixpoint hist_ok (h : list call) : bool :=
+  match h with
+  | [] => true
+  | CLoad [] :: _ => true
+  | CLoad (_ :: _) :: _ => false
+  | CRender _ :: _ => true
+  | CPartials _ [] :: r => hist_ok r
+  | CPartials _ (_ :: _) :: _ => true
+  end.
 
 (* S: a partial p of T exists iff the literal name T.partial/p is a file of the tree *)
 Definition partial_exists (tree : list bytes) (t p : bytes) : bool :=
